@@ -616,6 +616,12 @@ func (c *client) processWorkDone(
 	runID string,
 	doneMessage WorkDoneMessage,
 ) ExecutionResult {
+	if doneMessage.OutputID == "" {
+		// Every step output has an ID. A work done message without one is incomplete or garbled (a CBOR null or a
+		// shortened map decodes without an error); reporting it as a result would fabricate a success.
+		return NewErrorExecutionResult(fmt.Errorf(
+			"step with run ID '%s' sent a work done message without an output ID; the message is incomplete or corrupted", runID))
+	}
 	c.logger.Debugf("Step with run ID '%s' completed with output ID '%s'.", runID, doneMessage.OutputID)
 
 	// Print debug logs from the step as debug.
